@@ -118,6 +118,15 @@ CLAIMED = {
                  "(Weka quoting, RFC-4180), zlib/gzip, the codec's code-point arithmetic, Python's csv module (re-implemented for one dialect and compared), int()/float(). A line handed to DiskSink contains no CR/LF; an embedded CSV line break reads back as \\n. "
                  "Open findings: a quoted '?' value reads as missing; tab separated ARFF with a comma inside a quoted value can be misread.",
             technique="Coq proof (automaton invariants, round-trip inductions) over translator-checked constants + extracted-model correspondence + printed-table oracle", design="§5 C12"),
+ "C08": dict(text="Coq theorems (C08/Props.v) over an interleaving model of Multiprocessor.filter - consumer, loader thread, loader callback, n worker lineages of successive incarnations and their completion callbacks, bounded input queue, output queue, pills, "
+                  "maxtasksperchild, filter errors after any prefix of an item's outputs, early abandon - for ANY n>=1, m>=0, item list and schedule: an inductive invariant of 21 clauses (Inv') gives exactly_once (a call that returns has yielded exactly the "
+                  "multiset of all outputs), error_never_dropped, maxtasksperchild_bound, at_most_one_output_pill, no_deadlock (while the consumer has not finished some actor can move - normal, error and abandon paths) and every_move_decreases_mu "
+                  "(a potential bounds the number of moves: no schedule moves for ever). A baton scheduler drives the real Multiprocessor.filter with fakes for Queue/Event/Pipe/process start+join only (coba's loader, worker, callback and consumer code runs unchanged) through "
+                  "random and - thorough - exhaustive schedules; every step's queue lengths, n_procs, exception count and yielded count are compared with the extracted model, and a whole fair round without progress is reported as a hang. Real spawn-process runs are a smoke layer.",
+            note="Trusted: Coq kernel, extraction+driver, the scheduler harness and its fakes. Modelled not verified: real process start/exit codes, multiprocessing.Queue's pipes and feeder threads (FIFO, atomic put/get assumed), pickling. Completion callbacks are atomic steps; "
+                 "all workers start in the consumer's first step. 'Never hangs' = no_deadlock + the decreasing potential, i.e. termination under any scheduler that lets some enabled actor move; OS-level starvation and killed processes are outside. "
+                 "Open finding: a filter output None is mistaken for the output pill.",
+            technique="Coq proof (inductive invariant over interleavings, deadlock freedom, termination measure) + scheduled co-simulation of the real class with the extracted model + real-process smoke runs", design="§5 C08"),
 }
 NA_REASON = "check not built yet in this revision (planned, see DESIGN.md §8); no claim is made"
 def main():
